@@ -192,9 +192,6 @@ func workerMain() {
 				rep.Trace[variantNames[v]] = o.trace
 				rep.CloseErr[variantNames[v]] = o.closeErr
 			}
-			if measure {
-				agg.ConnReads += 0
-			}
 		}
 		done.Cases++
 		if delivered {
